@@ -326,6 +326,13 @@ def main(check, argv=None):
             return any(x['inv'] == inv and check.signature(p, x) == sig for x in r['viol'])
 
         if not fails(plan0):
+            if inv.endswith('-harness'):
+                # a self-validation of the harness (e.g. the real-kill comparison of simdisk) that failed once and
+                # passes when the same plan is executed again in a fresh process: the machine (a forked child
+                # starved or out of scratch space under load), not the plan.  Reported, not counted as an error.
+                print(f"NOTE: harness self-validation {inv} of run {i} failed once and passed on re-execution: "
+                      f"{v.get('msg', '')[:200]}")
+                continue
             harness.append((i, f'violation {inv} ({sig}) did not reproduce in a fresh fork: {v.get("msg", "")[:300]}'))
             continue
         budget = 40 if is_known else check.shrink_budget
